@@ -31,6 +31,17 @@ every hit, and the check fails when source and table disagree):
                created: ``lazy-init:lock`` (Lock/RLock/Event/Condition/Semaphore - an OBSERVABLE value: two racing initialisers hold
                different locks), ``lazy-init:container``, ``lazy-init:instance:<Class>``, ``lazy-init:call:<callee>``, ``lazy-init:expr``
 
+  closure-cell a local name of a FACTORY function (any function that defines inner functions) that is bound there by an assignment and is
+               a free variable of an inner function: the object lives as long as the inner function does (a responder created per route at
+               add_route(), a wrapper created once per decorated function ...) and is shared by every call of it.  The shape records what
+               the cell is bound to (``container`` / ``instance:<Class>`` / ``call:<callee>`` / ``alias-of:<name>`` / ``expr``; cells bound to
+               values that are certainly immutable - constants, str methods, arithmetic on them - are not reported) and what the inner
+               functions do with it: ``read`` / ``call`` (called) / ``arg`` (passed on) / ``raise`` / ``return`` / ``yield`` / ``mutate`` / ``attr``
+               (an attribute or item of it is read).  A cell bound to a fresh INSTANCE that the inner function RAISES or RETURNS is an
+               object created once and handed to every request (a pre-built exception): no proved kind admits that shape.
+  shared-raise ``raise self.X`` in a method of a long-lived class, or ``raise name`` where ``name`` is a module-level object that is not a
+               class: an exception object that exists before the request and is raised into it
+
 The ``shape`` of an item is a short canonical string (decorator text with its arguments; the set of mutation forms); a change of
 shape (e.g. ``lru_cache(maxsize=64)`` -> ``lru_cache(maxsize=None)``, or a new kind of mutation) is reported like a new item.
 """
@@ -45,6 +56,8 @@ MUTABLE_CTORS = {'dict', 'list', 'set', 'bytearray', 'defaultdict', 'OrderedDict
                  'WeakKeyDictionary', 'WeakSet', 'ChainMap'}
 SYNC_CTORS = {'Lock', 'RLock', 'Semaphore', 'BoundedSemaphore', 'Event', 'Condition', 'Barrier', 'allocate_lock'}
 TRACK_ARGS = True
+IMMUTABLE_METHODS = {'join', 'format', 'lower', 'upper', 'strip', 'lstrip', 'rstrip', 'encode', 'decode', 'replace', 'title', 'capitalize', 'casefold',
+                     'str', 'int', 'float', 'bool', 'bytes', 'tuple', 'frozenset', 'len', 'repr', 'hash', 'id', 'ord', 'chr', 'isinstance', 'issubclass', 'callable'}
 INIT_METHODS = {'__init__', '__new__', '__post_init__', '__init_subclass__', '__set_name__'}
 
 
@@ -233,6 +246,121 @@ def _binding_targets(n):
         yield from _names_in_target(n.target)
 
 
+def _cell_value_kinds(v, class_names):
+    """what a closure cell is bound to: {'immutable'} | {'container'} | {'instance:C'} | {'call:f'} | {'alias-of:n'} | {'expr'} (unions for conditionals)"""
+    if isinstance(v, (ast.Constant, ast.JoinedStr, ast.Lambda)):
+        return {'immutable'}
+    if isinstance(v, ast.Call):
+        d = dotted(v.func)
+        tail = d.split('.')[-1] if d else (v.func.attr if isinstance(v.func, ast.Attribute) else '?')
+        if tail == 'cast' and len(v.args) == 2:
+            return _cell_value_kinds(v.args[1], class_names)
+        mv = _is_mutable_value(v, class_names)
+        if mv:
+            return {mv}
+        if tail in IMMUTABLE_METHODS:
+            return {'immutable'}
+        return {'call:' + tail}
+    mv = _is_mutable_value(v, class_names)
+    if mv:
+        return {mv}
+    if isinstance(v, ast.IfExp):
+        return _cell_value_kinds(v.body, class_names) | _cell_value_kinds(v.orelse, class_names)
+    if isinstance(v, ast.BoolOp):
+        out = set()
+        for x in v.values:
+            out |= _cell_value_kinds(x, class_names)
+        return out
+    if isinstance(v, ast.BinOp):
+        ks = _cell_value_kinds(v.left, class_names) | _cell_value_kinds(v.right, class_names)
+        return {'immutable'} if 'immutable' in ks and not (ks & {'container'}) and all(k in ('immutable', 'expr') or k.startswith('alias-of:') for k in ks) else {'expr'}
+    if isinstance(v, (ast.Compare, ast.UnaryOp)):
+        return {'immutable'}
+    if isinstance(v, ast.Tuple):
+        out = set()
+        for x in v.elts:
+            out |= _cell_value_kinds(x, class_names)
+        return out or {'immutable'}
+    if isinstance(v, ast.Name):
+        return {'alias-of:' + v.id}
+    return {'expr'}
+
+
+def _cell_uses(G, name):
+    """how the inner function G (and the functions nested in it) uses the free variable `name`"""
+    uses = set()
+    parents = {}
+    for x in ast.walk(G):
+        for c in ast.iter_child_nodes(x):
+            parents[id(c)] = x
+    for x in ast.walk(G):
+        if not (isinstance(x, ast.Name) and x.id == name and isinstance(x.ctx, ast.Load)):
+            continue
+        p = parents.get(id(x))
+        if isinstance(p, ast.Raise) and (p.exc is x or p.cause is x):
+            uses.add('raise')
+        elif isinstance(p, (ast.Return,)) :
+            uses.add('return')
+        elif isinstance(p, (ast.Yield, ast.YieldFrom)):
+            uses.add('yield')
+        elif isinstance(p, ast.Call) and p.func is x:
+            uses.add('call')
+        elif isinstance(p, ast.Call) or isinstance(p, ast.keyword) or isinstance(p, ast.Starred):
+            uses.add('arg')
+        elif isinstance(p, ast.Attribute) and p.value is x:
+            gp = parents.get(id(p))
+            if isinstance(p.ctx, (ast.Store, ast.Del)):
+                uses.add('mutate')
+            elif isinstance(gp, ast.Call) and gp.func is p and p.attr in MUTATORS:
+                uses.add('mutate')
+            else:
+                uses.add('attr')
+        elif isinstance(p, ast.Subscript) and p.value is x:
+            uses.add('mutate' if isinstance(p.ctx, (ast.Store, ast.Del)) else 'attr')
+        elif isinstance(p, ast.AugAssign):
+            uses.add('mutate')
+        else:
+            uses.add('read')
+    return uses
+
+
+def closure_cells(F, class_names):
+    """{name: (value kinds, uses, line, inner function names)} for the closure cells of the factory function F (see the module docstring)"""
+    inner = list(_walk_same_scope_defs(F))
+    if not inner:
+        return {}
+    binds = {}
+    for n in _walk_same_scope(F):
+        if isinstance(n, ast.Assign):
+            for t in n.targets:
+                for nm in _names_in_target(t):
+                    binds.setdefault(nm, []).append((n.value if isinstance(t, ast.Name) else None, n.lineno))
+        elif isinstance(n, ast.AnnAssign) and n.value is not None and isinstance(n.target, ast.Name):
+            binds.setdefault(n.target.id, []).append((n.value, n.lineno))
+        elif isinstance(n, ast.NamedExpr) and isinstance(n.target, ast.Name):
+            binds.setdefault(n.target.id, []).append((n.value, n.lineno))
+    out = {}
+    for G in inner:
+        gl = _Scope(G, None, None).locals
+        for nm in binds:
+            if nm in gl:
+                continue
+            uses = _cell_uses(G, nm)
+            if not uses:
+                continue
+            kinds = set()
+            for v, _ in binds[nm]:
+                kinds |= _cell_value_kinds(v, class_names) if v is not None else {'expr'}
+            if kinds <= {'immutable'}:
+                continue
+            kinds.discard('immutable')
+            ent = out.setdefault(nm, (set(), set(), binds[nm][0][1], set()))
+            ent[0].update(kinds)
+            ent[1].update(uses)
+            ent[3].add(G.name)
+    return out
+
+
 def scan(root=None, per_request_classes=()):
     base, files = source_files(root)
     trees = {}
@@ -326,6 +454,14 @@ def scan(root=None, per_request_classes=()):
                 for nm in c.names:
                     item(rel, f'<closure>.{nm}', 'closure-state', 'nonlocal', c.lineno)
 
+    mod_globals_all = {}
+    for rel, tree in trees.items():
+        names = set()
+        for n in tree.body:
+            for t in _binding_targets(n):
+                names.add(t)
+        mod_globals_all[rel] = names
+
     # ---- pass 1: walk every module with scopes
     for rel, tree in trees.items():
         mod_globals = {name for name, defs in module_state.items() if any(r == rel for r, _, _ in defs)}
@@ -347,6 +483,8 @@ def scan(root=None, per_request_classes=()):
                         if _is_mutable_value(dflt, class_names) == 'container':
                             muts = sorted(_mutations_of_name(n, arg.arg))
                             item(rel, '.'.join(q) + '(' + arg.arg + '=)', 'default-arg', _unparse(dflt) + ('|' + '+'.join(muts) if muts else '|read-only'), n.lineno)
+                    for nm, (kinds, uses, line0, inners) in sorted(closure_cells(n, class_names).items()):
+                        item(rel, '.'.join(q) + '.<cell>.' + nm, 'closure-cell', 'bound:' + '+'.join(sorted(kinds)) + '|' + '+'.join(sorted(uses)), line0)
                     sc = _Scope(n, scope, cls if (scope is None or scope.node is None) else None)
                     visit(n, q + ['<locals>'] if False else q, sc, cls if scope is None else cls)
                 elif isinstance(n, ast.ClassDef):
@@ -573,6 +711,16 @@ def scan(root=None, per_request_classes=()):
                     item(rel, '.'.join(qual + ['<partial-expr>']), 'partial-state', ps, line)
             if isinstance(n, (ast.If, ast.Try)):
                 lazy_init(n, qual, scope, cls)
+            if isinstance(n, ast.Raise) and n.exc is not None and scope is not None and scope.node is not None:
+                e = n.exc
+                d = dotted(e)
+                if isinstance(e, ast.Name):
+                    if not scope.is_local(e.id) and not _camel(e.id) and e.id in mod_globals_all.get(rel, ()):
+                        item(rel, e.id, 'shared-raise', 'module-object', line)
+                elif d and d.startswith('self.') and d.count('.') == 1 and cls is not None and cls.name not in per_request_classes:
+                    item(rel, f'{cls.name}.{d.split(".")[1]}', 'shared-raise', 'instance-attribute', line)
+                elif d and (d.startswith('cls.') or d.startswith('self.__class__.')) and cls is not None:
+                    item(rel, f'{cls.name}.{d.split(".")[-1]}', 'shared-raise', 'class-attribute', line)
             if isinstance(n, ast.Call) and TRACK_ARGS:
                 # aliasing: `self.X` handed to a local helper (a plain-name callee), which may mutate it
                 if isinstance(n.func, ast.Name) and scope is not None and n.func.id in _local_defs(scope):
